@@ -1574,7 +1574,7 @@ func (a *align) AvgAllelesPerSite() float64 {
 // Entropy of the given site. If the site number is < 0 or > length -> returns an error
 // if removegaps is true, do not take into account gap characters
 func (a *align) Entropy(site int, removegaps bool) (float64, error) {
-	if site < 0 || site > a.Length() {
+	if site < 0 || site >= a.Length() {
 		return 1.0, errors.New("site position is outside alignment")
 	}
 
